@@ -21,6 +21,9 @@
       51 divergence test: neither
       52 limits skipped: status already set   53 MaxIterations   54 MaxTime   55 no limit hit
     post_process:
+      56/57 previous-gap test: gap_abs member only / both members (45 = gap_rel only)
+      58/59/65 residual increase: dual only / primal only / both
+      b+14 / b+15 gap test: gap_abs member only / both members (b+1 = gap_rel only)
       60 status not eligible (untouched)   61 from NumericalError   62 from InsufficientProgress
       63 from MaxIterations   64 from MaxTime *)
 From Coq Require Import List ZArith NArith Bool Arith Floats.
@@ -39,7 +42,9 @@ Definition cov_conv (b : N) (i : info (T:=float)) (bz qx tga tgr tf ta tr tk : f
     else if ltb O (gap_abs i) tga then match tail with None => 0 | Some k => k end
     else if ltb O (gap_rel i) tgr then match tail with None => 1 | Some k => k end
     else 3 in
-  if (sp <? 2) then [b + sp]
+  if (sp <? 2) then
+    (* which member(s) of the gap disjunction hold: 14 abs only, 15 both (b+1 = rel only) *)
+    (if sp =? 0 then [b + 0; (if ltb O (gap_rel i) tgr then b + 15 else b + 14)] else [b + 1])
   else
     (b + sp) ::
     (if negb (ltb O (mul O (recip O tk) (ofZ O 1000)) (ktratio i)) then [b + 6]
@@ -68,6 +73,12 @@ Definition cov_term (i : info (T:=float)) (bz qx : float) (se : settings (T:=flo
     else if negb inc then [42]
     else
       43 ::
+      (* residual-increase disjunction: 58 dual only, 59 primal only, 65 both *)
+      (if ltb O (prev_res_dual i) (res_dual i)
+       then (if ltb O (prev_res_primal i) (res_primal i) then 65 else 58) else 59) ::
+      (* previous-gap disjunction (evaluated when ktratio < 100 eps): 56 abs only, 57 both (45 = rel only) *)
+      (if ltb O (ktratio i) (eps100 se) && ltb O (prev_gap_abs i) (tol_gap_abs se)
+       then [if ltb O (prev_gap_rel i) (tol_gap_rel se) then 57 else 56] else []) ++
       (if ltb O (ktratio i) (eps100 se)
        then (if ltb O (prev_gap_abs i) (tol_gap_abs se) then 44
              else if ltb O (prev_gap_rel i) (tol_gap_rel se) then 45 else 46)
